@@ -551,15 +551,18 @@ theorem headersStep_ok (N : Nat) (x : HSt) (hx : x.s.inp.length ≤ N) :
           simp only []
           exact ⟨_, rfl, by simp only []; omega⟩
         | some i =>
-          right
           simp only []
           have hi := (findByte_some hf).1
           have hcl := cstr_length_le (trimmed x.s.readLine.1)
           rw [substring?_ok _ _ _ (Nat.zero_le _) (by omega)]
           simp only []
-          rw [substring?_ok _ _ _ (by omega) (Nat.le_refl _)]
-          simp only []
-          exact ⟨_, rfl, by simp only []; omega, by simp only []; omega⟩
+          split
+          · left
+            exact ⟨_, rfl, by simp only []; omega⟩
+          · right
+            rw [substring?_ok _ _ _ (by omega) (Nat.le_refl _)]
+            simp only []
+            exact ⟨_, rfl, by simp only []; omega, by simp only []; omega⟩
     · left
       have hl := hnil hlive
       simp only [hl]
@@ -1290,7 +1293,7 @@ theorem trimmed_core (pre a post : Bytes) (hpre : ∀ c ∈ pre, isSp c = true) 
 
 /-- a header name as the reader needs it: non-empty, no `:`/NUL/LF, not starting with white space -/
 def NameOk (n : Bytes) : Prop :=
-  n ≠ [] ∧ (∀ c ∈ n, c ≠ 58 ∧ c ≠ 0 ∧ c ≠ 10) ∧ cIsSpace (n.headD 0) = false
+  n ≠ [] ∧ (∀ c ∈ n, c ≠ 58 ∧ c ≠ 0 ∧ c ≠ 10) ∧ cIsSpace (n.headD 0) = false ∧ validName n = true
 /-- a header value: non-empty, no LF, no blanks at either end -/
 def ValueOk (v : Bytes) : Prop :=
   v ≠ [] ∧ (∀ c ∈ v, c ≠ 10) ∧ isSp (v.headD 0) = false ∧ isSp (v.reverse.headD 0) = false
@@ -1306,7 +1309,7 @@ theorem headersStep_line (x : HSt) (name value rest : Bytes) (he : x.s.err = 0) 
     (hi : x.s.inp = name ++ 58 :: 32 :: (value ++ 13 :: 10 :: rest)) (hn : NameOk name) (hv : ValueOk value)
     (hlen : name.length + value.length + 3 ≤ 16001) :
     headersStep x = .ok (.next ⟨{ x.s with inp := rest }, storeHeader x.h name value, name, value⟩) := by
-  obtain ⟨hn0, hn1, hn2⟩ := hn
+  obtain ⟨hn0, hn1, hn2, hn3⟩ := hn
   obtain ⟨hv0, hv1, hv2, hv3⟩ := hv
   obtain ⟨a, t, rfl⟩ := List.exists_cons_of_ne_nil hn0
   have hline : x.s.readLine = ((a :: t) ++ 58 :: 32 :: (value ++ [13]), { x.s with inp := rest }) := by
@@ -1356,15 +1359,17 @@ theorem headersStep_line (x : HSt) (name value rest : Bytes) (he : x.s.err = 0) 
   rw [hcs2, findByte_append 58 (a :: t) _ (fun c hc => (hn1 c hc).1)]
   simp only []
   rw [substring?_ok _ _ _ (Nat.zero_le _) (by simp)]
-  simp only []
-  rw [substring?_ok _ _ _ (by simp only [List.length_cons, List.length_append]; omega) (Nat.le_refl _)]
   simp only [List.drop_zero, Nat.sub_zero]
   have e1 : (a :: (t ++ 58 :: 32 :: value)).take (a :: t).length = a :: t := by
     rw [← List.cons_append]; simp
+  rw [e1]
+  simp only [hn3, Bool.not_true, Bool.false_eq_true, if_false]
+  rw [substring?_ok _ _ _ (by simp only [List.length_cons, List.length_append]; omega) (Nat.le_refl _)]
+  simp only []
   have e2 : (a :: (t ++ 58 :: 32 :: value)).drop ((a :: t).length + 1) = 32 :: value := by
     rw [show a :: (t ++ 58 :: 32 :: value) = ((a :: t) ++ [58]) ++ 32 :: value by simp]
     rw [List.drop_left' (by simp)]
-  rw [e1, e2]
+  rw [e2]
   have e3 : ((32 :: value).take ((a :: (t ++ 58 :: 32 :: value)).length - ((a :: t).length + 1))) = 32 :: value := by
     apply List.take_of_length_le
     simp only [List.length_cons, List.length_append]; omega
